@@ -2,7 +2,8 @@
 
 Named spec predicates keep the VCs small: has_axis / some_input_has (mapspec.py), dim_along (every position of an array
 that carries an index has a given size), all_dims (all inputs), zip_mismatch (two inputs disagree along an index).
-`_get_common_dim` (nested def + starred unpacking of a generator) is an assumed contract, bounded-checked.
+`_get_common_dim` (nested def + starred unpacking of a generator) was an assumed contract until the engine learned to keep
+the assumptions made before a raise point inside a comprehension and the source-side trigger of `first, *rest`; it is proved now.
 """
 from __future__ import annotations
 
@@ -45,7 +46,6 @@ def _mismatch(S, arrays, index, shapes):
 
 get_common_dim = Contract(
     f"{F}::_get_common_dim", params={"arrays": SArraySpec, "index": TStr, "input_shapes": ShapeDict}, returns=TInt,
-    trusted=True,
     requires=lambda S, a: {
         "at least one array": S.len(a.arrays) >= 1,
         "every array carries the index and has a shape of its rank": S.forall(0, S.len(a.arrays), lambda i: S.and_(
@@ -55,8 +55,8 @@ get_common_dim = Contract(
     },
     raises=[("ValueError", lambda S, a: _mismatch(S, a.arrays, a.index, a.input_shapes))],
     ensures=lambda S, a, r, post: {"the common size along the index": _all_dims(S, a.arrays, a.index, a.input_shapes, r)},
-    note="nested function + starred unpacking of a generator: outside the engine's subset; bounded-checked. (For an "
-         "array that names the index twice the first position counts; MapSpecs name an index once per array.)",
+    note="nested helper (inlined) + starred unpacking of a generator. (For an array that names the index twice the first "
+         "position counts; MapSpecs name an index once per array.)",
 )
 ALL = [get_common_dim]
 
